@@ -209,6 +209,15 @@ func (c *Ctx) N(quick, thorough int) int {
 	return v
 }
 
+// Pick chooses a structural parameter (a depth, a length, a size bound) by tier. Unlike N it is never scaled: such
+// values carry the stated bounds of a check (e.g. templates of at most 64 KiB), not a number of cases.
+func (c *Ctx) Pick(quick, thorough int) int {
+	if c.Thorough() {
+		return thorough
+	}
+	return quick
+}
+
 // Mine reports whether case index i belongs to this shard.
 func (c *Ctx) Mine(i int) bool { return i%c.Shards == c.Shard }
 
